@@ -141,12 +141,91 @@ class Engine(StmtMixin):
         r, model = self._check(allf, timeout_ms)
         if r == z3.unknown:
             r, model = self._assisted(allf, timeout_ms, 2)
+        if r != z3.unsat:
+            # a `sat` under partial unfolding / with quantifiers may be an artefact, and with quantifiers z3
+            # mostly answers `unknown`: look for a witness on bounded shapes where the encoding is exact
+            m2 = self.refute(forms, base, min(timeout_ms, 8000))
+            if m2 is not None:
+                return "refuted", time.time() - t0, m2
+            if r == z3.sat:
+                r = z3.unknown  # no bounded witness: undecided, never a violation
         dt = time.time() - t0
         if r == z3.unsat:
             return "proved", dt, None
-        if r == z3.sat:
-            return "refuted", dt, model
         return "unknown", dt, None
+
+    def refute(self, forms, known, timeout_ms, bound=2):
+        """refutation mode (DESIGN 2.4): sequences of length <= bound, quantifiers over sequence
+        positions expanded to the positions 0..bound-1, spec functions unfolded 3 deep. A model of
+        that is a candidate witness; it only counts after native replay."""
+        from .core import _abstract_quant
+
+        # cheapest candidate: quantified subformulas abstracted by Boolean constants
+        s0 = z3.Solver()
+        s0.set("timeout", int(min(timeout_ms, 3000)))
+        for f in self.saturate(forms, known, depth=2, rounds=1):
+            s0.add(_abstract_quant(f))
+        if s0.check() == z3.sat:
+            return s0.model()
+        allf = self.saturate(forms, known, depth=3, rounds=2)
+        for _ in range(3):
+            subs = []
+            stack, seen = list(allf), set()
+            while stack:
+                t = stack.pop()
+                if t.get_id() in seen:
+                    continue
+                seen.add(t.get_id())
+                if z3.is_quantifier(t):
+                    if t.is_forall() and t.num_vars() <= 2 and all(t.var_sort(i) == z3.IntSort() for i in range(t.num_vars())):
+                        insts = []
+                        import itertools as _it
+                        for combo in _it.product(range(bound), repeat=t.num_vars()):
+                            insts.append(z3.substitute_vars(t.body(), *[z3.IntVal(c) for c in reversed(combo)]))
+                        subs.append((t, z3.And(*insts)))
+                    continue
+                if z3.is_app(t):
+                    stack.extend(t.children())
+            if not subs:
+                break
+            allf = [z3.substitute(f, *subs) for f in allf]
+            allf = allf + self.speclib.unfold(allf, depth=2, known=known)
+        lens = {}
+        stack, seen = list(allf), set()
+        while stack:
+            t = stack.pop()
+            if t.get_id() in seen:
+                continue
+            seen.add(t.get_id())
+            if z3.is_quantifier(t):
+                continue
+            if z3.is_app(t):
+                if t.decl().kind() == z3.Z3_OP_SEQ_LENGTH and not _has_free_var(t):
+                    lens[t.get_id()] = t
+                stack.extend(t.children())
+        allf = allf + [l <= bound for l in lens.values()]
+        # whatever quantifier is left (deeper than the expansion went) is dropped: the candidate may then be
+        # spurious, which the native replay decides
+        left = []
+        stack, seen = list(allf), set()
+        while stack:
+            t = stack.pop()
+            if t.get_id() in seen:
+                continue
+            seen.add(t.get_id())
+            if z3.is_quantifier(t):
+                left.append((t, z3.BoolVal(True) if t.is_forall() else z3.BoolVal(False)))
+            elif z3.is_app(t):
+                stack.extend(t.children())
+        if left:
+            allf = [z3.substitute(f, *left) for f in allf]
+        s = z3.Solver()
+        s.set("timeout", int(timeout_ms))
+        for f in allf:
+            s.add(f)
+        if s.check() == z3.sat:
+            return s.model()
+        return None
 
     def saturate(self, forms, known, depth=2, rounds=2):
         """definitional unfolding and sequence-element instantiation, alternated: instances mention new
